@@ -33,7 +33,8 @@ def dotted(e):
 
 
 class NTr:
-    def __init__(self, oracles=None, subscripts=None):
+    def __init__(self, oracles=None, subscripts=None, any_attr=False):
+        self.any_attr = any_attr    # adaptation slices: every `self.<attr>` read is a parameter, `**` and decimal literals allowed
         self.params = []            # (name, type) in order of first use
         self.oracles = oracles or {}
         self.subscripts = subscripts or {}
@@ -51,6 +52,10 @@ class NTr:
                     return 'none'
                 if e.value == 0.0:
                     return 'nzero'
+                if self.any_attr:
+                    from fractions import Fraction
+                    fr = Fraction(repr(e.value))          # the decimal literal as written, an exact rational over the reals
+                    return '(ndiv (nofZ (%d)%%Z) (nofZ (%d)%%Z))' % (fr.numerator, fr.denominator)
                 raise Untranslatable('float constant %r' % e.value)
             if isinstance(e.value, int):
                 return '(nofZ (%d)%%Z)' % e.value
@@ -64,6 +69,10 @@ class NTr:
         d = dotted(e)
         if d == 'self.beta':
             return self.param('a_beta')
+        if self.any_attr and d is not None and d.startswith('self.') and d.count('.') == 1:
+            return self.param('a_' + d[5:].lstrip('_'))
+        if self.any_attr and isinstance(e, ast.BinOp) and isinstance(e.op, ast.Pow):
+            return '(npow %s %s)' % (self.num(e.left, env), self.num(e.right, env))
         if isinstance(e, ast.BinOp) and type(e.op) in (ast.Add, ast.Sub, ast.Mult, ast.Div):
             op = {ast.Add: 'nadd', ast.Sub: 'nsub', ast.Mult: 'nmul', ast.Div: 'ndiv'}[type(e.op)]
             return '(%s %s %s)' % (op, self.num(e.left, env), self.num(e.right, env))
@@ -283,6 +292,139 @@ def t_swap_decide():
     return 'Definition src_swap_decide {T : Type} `{Num T} %s : sres T := %s.' % (tr.signature(MH_ORDER), e)
 
 
+# ---------------------------------------------------------------------------
+# adaptation: the scalar arithmetic inside the guarded block of each _update
+def guarded_body(path, cls, fn):
+    f = find_func(path, cls, fn)
+    b = strip_doc(f.body)
+    if not (len(b) == 2 and isinstance(b[0], ast.Assign) and dotted(b[0].targets[0]) == 'dk' and isinstance(b[1], ast.If) and not b[1].orelse):
+        raise Untranslatable('%s.%s is not `dk = ...; if <window>: ...`' % (cls, fn))
+    return b[1].body
+
+
+def t_factor(name, path, cls, fn):
+    """the statement `dk = <expression in dk>` that turns the step count into the decaying gain"""
+    body = guarded_body(path, cls, fn)
+    asg = [s for s in body if isinstance(s, ast.Assign) and dotted(s.targets[0]) == 'dk']
+    if len(asg) != 1 or body.index(asg[0]) != 0:
+        raise Untranslatable('%s.%s: the guarded block does not start with one `dk = ...`' % (cls, fn))
+    tr = NTr(any_attr=True)
+    tr.param('dk')
+    e = tr.num(asg[0].value, {'dk': ('T', 'dk')})
+    return 'Definition %s {T : Type} `{Num T} %s : T := %s.' % (name, tr.signature(), e)
+
+
+def t_log_update(name, path, cls, fn, attr, skip_call=None):
+    """`self.<attr> += <expression in dk, ar>`: the Robbins-Monro step of the log-scale"""
+    body = guarded_body(path, cls, fn)
+    hits = []
+    for s in body:
+        for n in ast.walk(s):
+            if isinstance(n, ast.AugAssign) and dotted(n.target) == 'self.' + attr:
+                if skip_call and isinstance(n.value, ast.Call) and dotted(n.value.func) == skip_call:
+                    continue
+                hits.append(n)
+    if len(hits) != 1 or not isinstance(hits[0].op, ast.Add):
+        raise Untranslatable('%s.%s: expected exactly one `self.%s += ...`' % (cls, fn, attr))
+    tr = NTr(any_attr=True)
+    for p_ in ('cur', 'd', 'ar'):
+        tr.param(p_)
+    e = tr.num(hits[0].value, {'dk': ('T', 'd'), 'ar': ('T', 'ar')})
+    return 'Definition %s {T : Type} `{Num T} %s : T := (nadd cur %s).' % (name, tr.signature(), e)
+
+
+def t_cw_update(name):
+    """_componentwise_scaling: `dlog_lambda[i] = dk * (ar - self.target_rate)` and the forced ratio 0 of a virtual move out of the prior"""
+    f = find_func('epsie/proposals/normal.py', 'ATAdaptiveSupport', '_componentwise_scaling')
+    asg = [n for n in ast.walk(f) if isinstance(n, ast.Assign) and isinstance(n.targets[0], ast.Subscript) and dotted(n.targets[0].value) == 'dlog_lambda']
+    ifs = [n for n in ast.walk(f) if isinstance(n, ast.If) and isinstance(n.test, ast.Compare) and dotted(n.test.left) == 'logp']
+    if len(asg) != 1 or len(ifs) != 1:
+        raise Untranslatable('_componentwise_scaling: expected one `dlog_lambda[i] = ...` and one `if logp == ...`')
+    tr = NTr(any_attr=True)
+    for p_ in ('d', 'ar'):
+        tr.param(p_)
+    e = tr.num(asg[0].value, {'dk': ('T', 'd'), 'ar': ('T', 'ar')})
+    t2 = NTr(any_attr=True)
+    test = t2.boo(ifs[0].test, {'logp': ('T', 'logp')})
+    forced = ifs[0].body
+    oe = ifs[0].orelse
+    if not (len(forced) == 1 and isinstance(forced[0], ast.Assign) and dotted(forced[0].targets[0]) == 'ar'
+            and len(oe) == 1 and isinstance(oe[0], ast.Assign) and isinstance(oe[0].targets[0], ast.Tuple)
+            and dotted(oe[0].targets[0].elts[1]) == 'ar' and isinstance(oe[0].value, ast.Call)
+            and dotted(oe[0].value.func) == 'chain._acceptance_ratio'):
+        raise Untranslatable('_componentwise_scaling: the virtual move is not `if logp == -inf: ar = c else: _, ar = chain._acceptance_ratio(..)`')
+    fz = t2.num(forced[0].value, {})
+    return ('Definition %s {T : Type} `{Num T} %s : T := %s.\n\nDefinition %s_ar {T : Type} `{Num T} (logp : T) (inner : T) : T := if %s then %s else inner.'
+            % (name, tr.signature(), e, name, test, fz))
+
+
+def t_veitch_alpha():
+    body = guarded_body('epsie/proposals/normal.py', 'AdaptiveSupport', '_update')
+    ifs = [s for s in body if isinstance(s, ast.If) and any(isinstance(n, ast.Assign) and dotted(n.targets[0]) == 'alpha' for n in s.body)]
+    ds = [s for s in body if isinstance(s, ast.Assign) and dotted(s.targets[0]) == 'dsigmas']
+    if len(ifs) != 1 or len(ds) != 1:
+        raise Untranslatable('AdaptiveSupport._update: expected one if/else assigning alpha and one `dsigmas = ...`')
+    i = ifs[0]
+    if not (len(i.body) == 1 and len(i.orelse) == 1 and isinstance(i.orelse[0], ast.Assign) and dotted(i.orelse[0].targets[0]) == 'alpha'
+            and isinstance(i.test, ast.Subscript) and isinstance(i.test.slice, ast.Constant) and i.test.slice.value == 'accepted'
+            and isinstance(i.test.value, ast.Subscript) and dotted(i.test.value.value) == 'chain.acceptance'
+            and isinstance(i.test.value.slice, ast.UnaryOp) and isinstance(i.test.value.slice.op, ast.USub)
+            and isinstance(i.test.value.slice.operand, ast.Constant) and i.test.value.slice.operand.value == 1):
+        raise Untranslatable("AdaptiveSupport._update: alpha is not chosen by `if chain.acceptance[-1]['accepted']`")
+    tr = NTr(any_attr=True)
+    a1 = tr.num(i.body[0].value, {})
+    a0 = tr.num(i.orelse[0].value, {})
+    t2 = NTr(any_attr=True)
+    for p_ in ('alpha', 'd'):
+        t2.param(p_)
+    e = t2.num(ds[0].value, {'alpha': ('T', 'alpha'), 'dk': ('T', 'd')})
+    return ('Definition src_veitch_alpha {T : Type} `{Num T} (accepted : bool) %s : T := if accepted then %s else %s.\n\n'
+            'Definition src_veitch_dsigma {T : Type} `{Num T} %s : T := %s.' % (tr.signature(), a1, a0, t2.signature(), e))
+
+
+ADAPT_TARGETS = (
+    ('src_veitch_factor', lambda: t_factor('src_veitch_factor', 'epsie/proposals/normal.py', 'AdaptiveSupport', '_update')),
+    ('src_veitch_alpha', t_veitch_alpha),
+    ('src_at_factor', lambda: t_factor('src_at_factor', 'epsie/proposals/normal.py', 'ATAdaptiveSupport', '_update')),
+    ('src_at_log', lambda: t_log_update('src_at_log', 'epsie/proposals/normal.py', 'ATAdaptiveSupport', '_update', '_log_lambda',
+                                        skip_call='self._componentwise_scaling')),
+    ('src_cw_dlog', lambda: t_cw_update('src_cw_dlog')),
+    ('src_eig_factor', lambda: t_factor_after('src_eig_factor', 'epsie/proposals/eigenvector.py', 'AdaptiveEigenvectorSupport', '_update')),
+    ('src_eig_log', lambda: t_log_update('src_eig_log', 'epsie/proposals/eigenvector.py', 'AdaptiveEigenvectorSupport', '_update', '_log_lambda')),
+    ('src_kappa_factor', lambda: t_factor('src_kappa_factor', 'epsie/proposals/solid_angle.py', 'AdaptiveIsotropicSolidAngleSupport', '_update')),
+    ('src_kappa_log', lambda: t_log_update('src_kappa_log', 'epsie/proposals/solid_angle.py', 'AdaptiveIsotropicSolidAngleSupport', '_update', '_log_kappa')),
+)
+
+
+def t_factor_after(name, path, cls, fn):
+    """as t_factor, but statements that do not mention dk may precede the `dk = ...` (the eigenvector proposals update their covariance first)"""
+    body = guarded_body(path, cls, fn)
+    asg = [s for s in body if isinstance(s, ast.Assign) and dotted(s.targets[0]) == 'dk']
+    if len(asg) != 1:
+        raise Untranslatable('%s.%s: the guarded block does not contain exactly one `dk = ...`' % (cls, fn))
+    for s in body[:body.index(asg[0])]:
+        if any(isinstance(n, ast.Name) and n.id == 'dk' for n in ast.walk(s)):
+            raise Untranslatable('%s.%s: dk is used before it is turned into the gain' % (cls, fn))
+    tr = NTr(any_attr=True)
+    tr.param('dk')
+    e = tr.num(asg[0].value, {'dk': ('T', 'dk')})
+    return 'Definition %s {T : Type} `{Num T} %s : T := %s.' % (name, tr.signature(), e)
+
+
+def generate_adapt():
+    lines = ['(* GENERATED by tools/py2coq_num.py from the current /repo sources - do not edit. *)',
+             'From Coq Require Import ZArith.', 'From Epsie Require Import Num.', '']
+    failed = []
+    for name, thunk in ADAPT_TARGETS:
+        try:
+            lines.append(thunk())
+        except (Untranslatable, SyntaxError, OSError) as e:
+            lines.append('(* %s: NOT TRANSLATED: %s *)' % (name, str(e).replace('*)', '* )')))
+            failed.append((name, str(e)))
+        lines.append('')
+    return '\n'.join(lines), failed
+
+
 def generate():
     lines = ['(* GENERATED by tools/py2coq_num.py from the current /repo sources - do not edit. *)',
              'From Coq Require Import ZArith.', 'From Epsie Require Import Num SrcSupport.', '']
@@ -298,18 +440,27 @@ def generate():
     return '\n'.join(lines), failed
 
 
-def main():
-    out = sys.argv[1] if len(sys.argv) > 1 else None
-    text, failed = generate()
+def emit(out, text):
     if out is None:
         print(text)
-    else:
-        os.makedirs(os.path.dirname(out), exist_ok=True)
-        old = open(out).read() if os.path.exists(out) else None
-        if old != text:
-            with open(out + '.tmp', 'w') as f:
-                f.write(text)
-            os.replace(out + '.tmp', out)
+        return
+    os.makedirs(os.path.dirname(out), exist_ok=True)
+    old = open(out).read() if os.path.exists(out) else None
+    if old != text:
+        with open(out + '.tmp', 'w') as f:
+            f.write(text)
+        os.replace(out + '.tmp', out)
+
+
+def main():
+    out = sys.argv[1] if len(sys.argv) > 1 else None
+    out2 = sys.argv[2] if len(sys.argv) > 2 else None
+    text, failed = generate()
+    emit(out, text)
+    if out2 is not None or out is None:
+        text2, failed2 = generate_adapt()
+        emit(out2, text2)
+        failed += failed2
     for name, err in failed:
         print('py2coq_num: %s not translated: %s' % (name, err), file=sys.stderr)
     return 0
